@@ -108,6 +108,8 @@ def create_clone(expression: exp.Expression) -> exp.Expression:
                 ],
                 **{"from": exp.From(this=clone.this)},
             ),
+            # the table whose text lengths the clone takes over
+            clone_source=clone.this,
         )
     return expression
 
